@@ -146,8 +146,30 @@ class _AuditItem:
         return self.d > other.d
 
 
+class _NullHandler:
+    pass
+
+
 def _run_exec(run_one, cfg, prefix, expect):
     ctl = Ctl(prefix, expect)
+    if isinstance(cfg, dict) and cfg.get("_log") == "debug":
+        # the same execution with the library's logging fully enabled (DEBUG, discarded by a null handler):
+        # log statements are code too - their argument expressions run only when the level is enabled
+        import logging
+
+        root = logging.getLogger()
+        old_level, old_disable = root.level, logging.root.manager.disable
+        h = logging.NullHandler()
+        root.addHandler(h)
+        root.setLevel(logging.DEBUG)
+        logging.disable(logging.NOTSET)
+        try:
+            obs = run_one(ctl, cfg)
+        finally:
+            logging.disable(old_disable)
+            root.setLevel(old_level)
+            root.removeHandler(h)
+        return ctl, obs
     obs = run_one(ctl, cfg)
     return ctl, obs
 
